@@ -107,10 +107,142 @@ fn check_zoned(zone: &str, secs: i64, digits: usize) -> Verdict {
             Ok(Ok(d)) => cmp(&format!("with-timezone:{how}"), &dt_from_lib(&d))?,
         }
     }
+    // (iv) programmatic constructors from an instant and a zone
+    check_programmatic(zone, secs, nanos, &want, &cmp)?;
     // codecs
     super::c01::zinc_roundtrip(&v).map_err(|(s, d)| (format!("zinc:{s}"), d))?;
     super::c02::hayson_roundtrip(&v).map_err(|(s, d)| (format!("hayson:{s}"), d))?;
     Ok(())
+}
+
+/// (iv) the constructors that take an instant and a zone rather than text: chrono conversions,
+/// timezone::make_date_time_with_tz (city and full name), timezone::make_date_time (fixed offset:
+/// instant only), and the C API constructor from UTC date + time + zone name with its getters.
+fn check_programmatic(zone: &str, secs: i64, nanos: u32, want: &DT, cmp: &dyn Fn(&str, &DT) -> Verdict) -> Verdict {
+    use chrono::{FixedOffset, TimeZone, Utc};
+    use libhaystack::c_api::datetime::*;
+    use libhaystack::c_api::value::*;
+    use libhaystack::timezone::{make_date_time, make_date_time_with_tz};
+    let tz: Tz = zone.parse().unwrap();
+    let city = city_of(zone);
+    let utc = Utc.timestamp_opt(secs, nanos).single().expect("instant");
+    // chrono::DateTime<Tz> -> DateTime
+    match guarded(|| DateTime::from(utc.with_timezone(&tz))) {
+        Err(p) => return Err(("from-chrono-tz-panic".into(), format!("{zone} {secs}: {p}"))),
+        Ok(d) => cmp("from-chrono-tz", &dt_from_lib(&d))?,
+    }
+    // chrono::DateTime<Utc> -> DateTime: the instant, in UTC
+    match guarded(|| DateTime::from(utc)) {
+        Err(p) => return Err(("from-chrono-utc-panic".into(), format!("{secs}: {p}"))),
+        Ok(d) => {
+            let got = dt_from_lib(&d);
+            if got.secs != secs || got.nanos != nanos || got.offset != 0 || got.tz != "UTC" {
+                return Err(("from-chrono-utc".into(), format!("{secs}s+{nanos}ns became {}s+{}ns offset {} zone {:?}", got.secs, got.nanos, got.offset, got.tz)));
+            }
+        }
+    }
+    // make_date_time_with_tz: the instant given at any fixed offset (UTC, the local one, an unrelated one)
+    for (how, off) in [("utc", 0), ("local", want.offset), ("other", 19_800)] {
+        let fixed = utc.with_timezone(&FixedOffset::east_opt(off).unwrap());
+        for (nm, name) in [("city", city.as_str()), ("full", zone)] {
+            match guarded(|| make_date_time_with_tz(&fixed, name)) {
+                Err(p) => return Err(("make-with-tz-panic".into(), format!("{name} {secs}: {p}"))),
+                Ok(Err(e)) => return Err((format!("make-with-tz-rejected:{nm}"), format!("make_date_time_with_tz(instant {secs} at offset {off}, {name:?}): {e}"))),
+                Ok(Ok(d)) => cmp(&format!("make-with-tz:{how}:{nm}"), &dt_from_lib(&DateTime::from(d)))?,
+            }
+        }
+    }
+    // make_date_time: a fixed offset has no zone name; whatever zone stands in, the instant is kept
+    if want.offset % 60 == 0 {
+        let fixed = utc.with_timezone(&FixedOffset::east_opt(want.offset).unwrap());
+        match guarded(|| make_date_time(fixed)) {
+            Err(p) => return Err(("make-fixed-panic".into(), format!("offset {} {secs}: {p}", want.offset))),
+            Ok(Err(_)) => {}
+            Ok(Ok(d)) => {
+                if d.timestamp() != secs || d.timestamp_subsec_nanos() != nanos {
+                    return Err(("make-fixed:instant".into(), format!("offset {} instant {secs} became {}", want.offset, d.timestamp())));
+                }
+            }
+        }
+    }
+    // C API: date and time are the UTC fields of the instant (whole seconds, or milliseconds)
+    let days = secs.div_euclid(86400);
+    let sod = secs.rem_euclid(86400) as u32;
+    let (y, mo, d) = civil_from_days(days);
+    let millis = nanos / 1_000_000;
+    let whole_ms = nanos % 1_000_000 == 0;
+    if !whole_ms {
+        return Ok(());
+    }
+    let r: Result<Verdict, String> = guarded(|| unsafe {
+        let date = Box::into_raw(haystack_value_make_date(y as i32, mo as u32, d as u32).expect("date"));
+        let time = Box::into_raw(if millis == 0 {
+            haystack_value_make_time(sod / 3600, sod / 60 % 60, sod % 60).expect("time")
+        } else {
+            haystack_value_make_time_millis(sod / 3600, sod / 60 % 60, sod % 60, millis).expect("time")
+        });
+        let mut verdict: Verdict = Ok(());
+        for (nm, name) in [("city", city.as_str()), ("full", zone)] {
+            let cname = std::ffi::CString::new(name).unwrap();
+            let made = haystack_value_make_tz_datetime(date, time, cname.as_ptr());
+            let Some(made) = made else {
+                verdict = Err((format!("capi-make-rejected:{nm}"), format!("haystack_value_make_tz_datetime({y}-{mo}-{d} {sod}s, {name:?}) failed")));
+                break;
+            };
+            let h = Box::into_raw(made);
+            let got = match &*h {
+                Value::DateTime(dt) => dt_from_lib(dt),
+                other => {
+                    verdict = Err(("capi-make-kind".into(), format!("{other:?}")));
+                    haystack_value_destroy(h);
+                    break;
+                }
+            };
+            if let Err(e) = cmp(&format!("capi-make:{nm}"), &got) {
+                verdict = Err(e);
+            }
+            // getters: UTC and local fields, zone name
+            let out = Box::into_raw(haystack_value_init());
+            for want_utc in [true, false] {
+                let shift = if want_utc { 0 } else { want.offset as i64 };
+                let ls = secs + shift;
+                let (ly, lm, ld) = civil_from_days(ls.div_euclid(86400));
+                let lsod = ls.rem_euclid(86400) as u32;
+                let rc = haystack_value_get_datetime_date(h, want_utc, out);
+                let ok_date = matches!(&*out, Value::Date(dd) if { use chrono::Datelike; dd.year() as i64 == ly && dd.month() as i64 == lm && dd.day() as i64 == ld });
+                if rc as i32 != 1 || !ok_date {
+                    verdict = verdict.and(Err((format!("capi-get-date:{}", if want_utc { "utc" } else { "local" }), format!("{zone} {secs}: got {:?}, expected {ly}-{lm}-{ld}", &*out))));
+                }
+                let rc = haystack_value_get_datetime_time(h, want_utc, out);
+                let ok_time = matches!(&*out, Value::Time(tt) if { use chrono::Timelike; tt.num_seconds_from_midnight() == lsod && tt.nanosecond() == nanos });
+                if rc as i32 != 1 || !ok_time {
+                    verdict = verdict.and(Err((format!("capi-get-time:{}", if want_utc { "utc" } else { "local" }), format!("{zone} {secs}: got {:?}, expected {lsod}s of day + {nanos}ns", &*out))));
+                }
+            }
+            let zs = haystack_value_get_datetime_timezone(h);
+            if zs.is_null() {
+                verdict = verdict.and(Err(("capi-get-timezone".into(), format!("{zone}: null"))));
+            } else {
+                let got = std::ffi::CStr::from_ptr(zs).to_string_lossy().to_string();
+                libhaystack::c_api::str::haystack_string_destroy(zs as *mut _);
+                if got != city {
+                    verdict = verdict.and(Err(("capi-get-timezone".into(), format!("{zone}: zone name {got:?}, expected {city:?}"))));
+                }
+            }
+            haystack_value_destroy(out);
+            haystack_value_destroy(h);
+            if verdict.is_err() {
+                break;
+            }
+        }
+        haystack_value_destroy(date);
+        haystack_value_destroy(time);
+        verdict
+    });
+    match r {
+        Err(p) => Err(("capi-panic".into(), format!("{zone} {secs}: {p}"))),
+        Ok(v) => v,
+    }
 }
 
 fn zone_sig(stage: &str, zone: &str, secs: i64, digits: usize) -> String {
